@@ -1,7 +1,88 @@
 import PprofVerif.Base.Tok
-/- Driver operations for C08. -/
-namespace Driver.C08
-open PV
+import PprofVerif.Model.GraphOrder
+import PprofVerif.Gen.Comparators
+/- Driver operations for C08: the model's sort under the REGENERATED comparators.
 
-def ops : List (String × (List String → String)) := []
+   sort.tags  <flat 0|1> <n> (name unit value flat flatDiv cum cumDiv)*
+   sort.nodes <OrderName> <n> (node)*        node = name orig addr file startLine lineno columnno objfile flat flatDiv cum cumDiv ext
+   sort.edges <n> (node node weight weightDiv)*
+   node.render (node)                        → x<PrintableName> x<fmt.Sprint(Info)>
+   proper                                    → which regenerated comparators are proper
+
+   sort.* reply: `ok <n> <index of the input element at position 0> … ties <t>` where t counts adjacent
+   result pairs that the comparator cannot separate (0 ⇒ the order is the unique sorted order). -/
+namespace Driver.C08
+open PV PV.Order PV.GraphOrder PV.Gen.Comparators
+
+def rdInfo : Rd NodeInfo := do
+  let name ← Rd.str; let orig ← Rd.str; let addr ← Rd.nat; let file ← Rd.str
+  let sl ← Rd.int; let ln ← Rd.int; let cn ← Rd.int; let obj ← Rd.str
+  pure ⟨name, orig, addr, file, sl, ln, cn, obj⟩
+
+def rdNode : Rd Node := do
+  let i ← rdInfo
+  let flat ← Rd.int; let flatDiv ← Rd.int; let cum ← Rd.int; let cumDiv ← Rd.int; let ext ← Rd.int
+  pure ⟨i, flat, flatDiv, cum, cumDiv, ext⟩
+
+def rdEdge : Rd Edge := do
+  let s ← rdNode; let d ← rdNode; let w ← Rd.int; let wd ← Rd.int
+  pure ⟨s, d, w, wd⟩
+
+def rdTag : Rd Tag := do
+  let name ← Rd.str; let unit ← Rd.str; let value ← Rd.int
+  let flat ← Rd.int; let flatDiv ← Rd.int; let cum ← Rd.int; let cumDiv ← Rd.int
+  pure ⟨name, unit, value, flat, flatDiv, cum, cumDiv⟩
+
+def indexed {α : Type} : List α → Nat → List (Nat × α)
+  | [], _ => []
+  | a :: l, i => (i, a) :: indexed l (i + 1)
+
+def countTies {α : Type} (lt : α → α → Bool) : List α → Nat
+  | [] => 0
+  | [_] => 0
+  | a :: b :: l => (if !lt a b && !lt b a then 1 else 0) + countTies lt (b :: l)
+
+def sortReply {α : Type} (lt : α → α → Bool) (l : List α) : String :=
+  let s := sortBy (fun (x y : Nat × α) => lt x.2 y.2) (indexed l 0)
+  "ok " ++ Wr.render (Wr.list Wr.nat (s.map (·.1))) ++ " ties " ++ toString (countTies lt (s.map (·.2)))
+
+def nodeOrder? : String → Option (List (KD NodeProj) × ScoreSrc)
+  | "FlatNameOrder" => some (nodes_FlatNameOrder, .external "")
+  | "FlatCumNameOrder" => some (nodes_FlatCumNameOrder, .external "")
+  | "CumNameOrder" => some (nodes_CumNameOrder, nodes_CumNameOrder_score)
+  | "NameOrder" => some (nodes_NameOrder, .external "")
+  | "FileOrder" => some (nodes_FileOrder, .external "")
+  | "AddressOrder" => some (nodes_AddressOrder, .external "")
+  | "EntropyOrder" => some (nodes_EntropyOrder, nodes_EntropyOrder_score)
+  | _ => none
+
+def b01 (b : Bool) : String := if b then "1" else "0"
+
+def ops : List (String × (List String → String)) := [
+  ("sort.tags", fun ts =>
+    match Rd.run (do let f ← Rd.bool; let l ← Rd.list rdTag; pure (f, l)) ts with
+    | none => "bad-op"
+    | some (f, l) => sortReply (tagLess (if f then tags_Less__flat else tags_Less__not_flat)) l),
+  ("sort.nodes", fun ts =>
+    match ts with
+    | [] => "bad-op"
+    | o :: rest =>
+      match nodeOrder? o, Rd.run (Rd.list rdNode) rest with
+      | some (ks, sc), some l => sortReply (nodeLess sc ks) l
+      | _, _ => "bad-op"),
+  ("sort.edges", fun ts =>
+    match Rd.run (Rd.list rdEdge) ts with
+    | none => "bad-op"
+    | some l => sortReply (edgeLess edgeList_Less) l),
+  ("node.render", fun ts =>
+    match Rd.run rdNode ts with
+    | none => "bad-op"
+    | some n => Str.toTok (printableName n.info) ++ " " ++ Str.toTok (sprintInfo n.info)),
+  ("proper", fun _ =>
+    "tags_flat=" ++ b01 (allProperKD tags_Less__flat) ++ " tags_not_flat=" ++ b01 (allProperKD tags_Less__not_flat) ++
+    " edges=" ++ b01 (allProperKD edgeList_Less) ++
+    " edges_identity=" ++ b01 (hasIdKey (EdgeProj.Src .Sprint_Info) edgeList_Less && hasIdKey (EdgeProj.Dest .Sprint_Info) edgeList_Less) ++
+    " nodes=" ++ b01 ([nodes_FlatNameOrder, nodes_FlatCumNameOrder, nodes_CumNameOrder, nodes_NameOrder, nodes_FileOrder,
+        nodes_AddressOrder, nodes_EntropyOrder].all allProperKD))
+]
 end Driver.C08
